@@ -310,7 +310,7 @@ RULE = ("each request (plain QUERY, RD random, with or without an OPT advertisin
 CHECK = {
     "property": "C04",
     "props": "Props/C04.v",
-    "theorems": ["c04_response_within_limit", "c04_tc_shape", "c04_limit_value", "c04_udp_response_size", "c04_udp_identical_when_fits_partial", "c04_writer_limit_monotone", "c04_oracle_tc_shape",
+    "theorems": ["c04_tc_on_the_octets", "c04_response_within_limit", "c04_tc_shape", "c04_limit_value", "c04_udp_response_size", "c04_udp_identical_when_fits_partial", "c04_writer_limit_monotone", "c04_oracle_tc_shape",
                  "c04_oracle_sizes_and_identity"],
     "allowed_axioms": [],
     "suites": [{
@@ -342,7 +342,10 @@ MANIFEST = {
                    "prepares a clean QUERY), for every zone, question, buffer and size: the finished response is no longer than the "
                    "limit in effect, and the two sides compose for UDP; the limit never changes while answering; TC is set only in the "
                    "Truncation arm, only over UDP, after clear_rrs (no answer/authority records, only the reserved OPT/TSIG counted), "
-                   "never over TCP; and — clause (iii) for answers that end Ok — if the finished TCP message fits the UDP space the UDP "
+                   "never over TCP — and (third wave, c04_tc_on_the_octets, composed with C12's message-level round trip and the key lemma "
+                   "that query.rs obeys the Writer's hint contract) the same on the FINISHED OCTETS for every zone built by adds: an "
+                   "independent RFC 1035 decoder reads TC set only over UDP, and then empty answer and authority sections and nothing "
+                   "but the OPT in the additional section; and — clause (iii) for answers that end Ok — if the finished TCP message fits the UDP space the UDP "
                    "response is octet-identical (Writer limit-monotonicity + a relational lifting over the query model). PARTIAL: "
                    "clause (iii) for answers ending in SERVFAIL after partial writes (false there: known finding C04-1) and clause (iv) "
                    "('a TC-clear UDP response differs only by omitted optional additional records, never in-bailiwick glue') are not "
